@@ -6,9 +6,10 @@ calls, followed by F.pad(data, npad[::-1]) or F.pad(data, npad).
 Anything else raises Unsupported -> gen_available := false (the property then rests on correspondence alone).
 """
 import ast
+import os
 from pathlib import Path
 
-SRC = Path('/repo/src/mrpro/utils/zero_pad_or_crop.py')
+SRC = Path(os.environ.get('VERIF_REPO', '/repo')) / 'src/mrpro/utils/zero_pad_or_crop.py'
 
 
 class Unsupported(Exception):
